@@ -15,3 +15,21 @@ prop('C01', rules=['C01.mask'],
 prop('C12', rules=['C12.assign'],
      floors={'uninit-locals-in-try-functions:backmp11': 1},
      explanation='C12.assign: definite assignment of scalar locals of back-end functions with exception-handler edges.')
+
+ROWS_EXPL = ('Row executors (every instantiation of row_/g_row_/a_row_/_row_, the irow_/internal_ families, frow, and the '
+             'backmp11 transition / internal_transition / forward_transition): all CFG paths are enumerated (front-end folded '
+             'constant branches removed, assertion-failure paths ignored) and abstracted to guard / exit / action / entry calls '
+             '(classified through the resolved call graph), writes of the active-state array and the returned code.')
+FLOOR_EXT = {'external-exec:back:row_': 1, 'external-exec:back:g_row_': 1, 'external-exec:back:a_row_': 1, 'external-exec:back:_row_': 1,
+             'external-exec:back11:row_': 1, 'external-exec:back11:g_row_': 1, 'external-exec:back11:a_row_': 1, 'external-exec:back11:_row_': 1,
+             'external-exec:backmp11:transition': 1}
+FLOOR_INT = {'internal-exec:back:irow_': 1, 'internal-exec:back:g_irow_': 1, 'internal-exec:back:a_irow_': 1, 'internal-exec:back:_irow_': 1,
+             'internal-exec:back11:irow_': 1, 'internal-exec:back11:g_irow_': 1, 'internal-exec:back11:a_irow_': 1, 'internal-exec:back11:_irow_': 1,
+             'internal-exec:back:internal_': 1, 'internal-exec:back:a_internal_': 1, 'internal-exec:back11:internal_': 1, 'internal-exec:back11:a_internal_': 1,
+             'internal-exec:backmp11:internal_transition': 1}
+prop('C02', rules=['rows'], take=['C02.order', 'C02.internal'], floors={**FLOOR_EXT, **FLOOR_INT},
+     explanation=ROWS_EXPL + ' C02.order: on every taken path guard? < switch < exit < switch < action? < switch < entry < switch, each exactly once; C02.internal: internal executors run guard and action only.')
+prop('C19', rules=['rows'], take=['C19.slots'], floors=FLOOR_EXT,
+     explanation=ROWS_EXPL + ' C19.slots: the four writes of the active-state id use after_guard, after_exit, after_action, after_entry in this order, interleaved with the behaviours.')
+prop('C09', rules=['rows'], take=['C09.exit-active'], floors={'exit-source-exec:back': 1, 'exit-source-exec:back11': 1, 'exit-source-exec:backmp11': 1},
+     explanation=ROWS_EXPL + ' C09.exit-active: an executor whose source is an exit pseudostate has a path returning HANDLED_FALSE before the guard, decided by a test that depends on the owner submachine\'s active-state array.')
